@@ -143,13 +143,13 @@ class CCodeMapper(SimplifyingSortingStringifyMapper):
         if is_constant(expr.exponent):
             if is_zero(expr.exponent):
                 return "1"
-            elif is_zero(expr.exponent - 1):
+            from pymbolic.mapper.stringifier import PREC_POWER, PREC_PRODUCT
+            if enclosing_prec >= PREC_PRODUCT:
+                # in a product or quotient: x/(y*z) and x/(y*y), not x/y*z
+                enclosing_prec = PREC_POWER
+            if is_zero(expr.exponent - 1):
                 return self.rec(expr.base, enclosing_prec)
             elif is_zero(expr.exponent - 2):
-                from pymbolic.mapper.stringifier import PREC_POWER, PREC_PRODUCT
-                if enclosing_prec >= PREC_PRODUCT:
-                    # in a product or quotient: x/(y*y), not x/y*y
-                    enclosing_prec = PREC_POWER
                 return self.rec(expr.base*expr.base, enclosing_prec)
 
         return self.format("pow(%s, %s)",
